@@ -1158,3 +1158,26 @@ pub fn position_unwrap_other_slice_panics(s: &[u32], o: &[u32], t: u32) -> u32 {
     let i = s.iter().position(|&x| x > t).unwrap();
     o[i]
 }
+
+// a parameter that is mutated through `&mut` after a guard: the guard no longer speaks about its value
+pub fn mut_param_swap_panics(mut a: Vec<u8>, mut b: Vec<u8>) -> u8 {
+    if a.is_empty() {
+        return 0;
+    }
+    std::mem::swap(&mut a, &mut b);
+    a[0]
+}
+pub fn mut_param_clear_panics(mut a: Vec<u8>) -> u8 {
+    if a.is_empty() {
+        return 0;
+    }
+    a.clear();
+    a[0]
+}
+pub fn mut_param_untouched_safe(a: Vec<u8>, mut b: Vec<u8>) -> u8 {
+    if a.is_empty() {
+        return 0;
+    }
+    b.clear();
+    a[0]
+}
